@@ -1,5 +1,7 @@
 import IQE.Props.C15
+import IQE.Props.C15Gen
 open IQE.Props.C15
+open IQE.Props.C15Gen
 #print axioms C15_init_inv
 #print axioms C15_step_inv
 #print axioms C15_run_inv
@@ -13,3 +15,7 @@ open IQE.Props.C15
 #print axioms C15_generation_advances
 #print axioms C15_generation_advances_set
 #print axioms C15_string_env_wf
+#print axioms C15Gen_status_bijection
+#print axioms C15Gen_record_up_step
+#print axioms C15Gen_record_down_step
+#print axioms C15Gen_inRange
